@@ -19,7 +19,6 @@ import (
 
 var errInvalidPrefix = errors.New("route: prefix must not be empty")
 var errInvalidTarget = errors.New("route: target must not be empty")
-var errNoMatch = errors.New("route: no target match")
 
 // table stores the active routing table. Must never be nil.
 var table atomic.Value
@@ -199,12 +198,18 @@ func (t Table) weighRoute(d *RouteDef) error {
 		return errInvalidPrefix
 	}
 
+	// A weight for which there is currently no matching target is not an
+	// error. Like 'route del' it simply has nothing to do. Otherwise a
+	// manual 'route weight' override makes the whole table fail - and the
+	// previous table stay active - as soon as the last matching instance
+	// becomes unhealthy or is deregistered.
 	if t[host] == nil || t[host].find(path) == nil {
-		return errNoMatch
+		log.Printf("[DEBUG] route: no target matches 'route weight %s %s'", d.Service, d.Src)
+		return nil
 	}
 
 	if n := t[host].find(path).setWeight(d.Service, d.Weight, d.Tags); n == 0 {
-		return errNoMatch
+		log.Printf("[DEBUG] route: no target matches 'route weight %s %s'", d.Service, d.Src)
 	}
 	return nil
 }
